@@ -139,6 +139,8 @@ type Env struct {
 	Cache   *Cache
 	Chain   []*x509.Certificate
 	kits    []*Kit
+	v       revocation.Validator  // built on first use, reused by later Run calls
+	rev     revocation.Revocation // same for the deprecated entry point
 }
 
 // Prepare builds the network, fetcher and cache for a scenario.
@@ -191,6 +193,36 @@ func (sc *Scenario) PrepareOn(net *netsim.Sim) *Env {
 	return env
 }
 
+// Replan switches the environment to the behaviours of next (same shapes, same
+// configuration): the servers change their mind, the validator, client,
+// fetcher and cache stay.
+func (env *Env) Replan(next *Scenario) {
+	f := next.Family()
+	env.Sc = next
+	for pos := 0; pos < next.Len-1; pos++ {
+		p := next.Plans[pos]
+		kit := next.Kit(pos)
+		for j, kind := range p.Shape.OCSP {
+			if IsHTTPKind(kind) {
+				env.Net.Handle(f.Host(pos, "o", j), kit.OCSPHandler([]netsim.Reply{kit.Reply(p.OCSP[j], next.WithST)}))
+			}
+		}
+		for j, kind := range p.Shape.CRL {
+			if next.CRLRoute == "fetcher" {
+				url := f.URL(pos, "d", j, kind)
+				env.Fetcher.mu.Lock()
+				delete(env.Fetcher.Bundles, url)
+				if set := kit.CRL(p.CRL[j], j); set.Bundle != nil && IsHTTPKind(kind) {
+					env.Fetcher.Bundles[url] = set.Bundle
+				}
+				env.Fetcher.mu.Unlock()
+			} else if IsHTTPKind(kind) {
+				kit.CRLHandlers(env.Net, j, p.CRL[j])
+			}
+		}
+	}
+}
+
 // Run executes the scenario's entry point under ctx.
 func (env *Env) Run(ctx context.Context) *Outcome {
 	sc := env.Sc
@@ -218,13 +250,20 @@ func (env *Env) Run(ctx context.Context) *Outcome {
 		case "ocsp":
 			out.Results, out.Err = rocsp.CheckStatus(rocsp.Options{CertChain: env.Chain, CertChainPurpose: pur, SigningTime: st, HTTPClient: client})
 		case "validate-deprecated":
-			r, err := revocation.New(client)
-			if err != nil {
-				out.Err = err
+			if env.rev == nil {
+				r, err := revocation.New(client)
+				if err != nil {
+					out.Err = err
+					return
+				}
+				env.rev = r
+			}
+			out.Results, out.Err = env.rev.Validate(env.Chain, st)
+		default:
+			if env.v != nil {
+				out.Results, out.Err = env.v.ValidateContext(ctx, revocation.ValidateContextOptions{CertChain: env.Chain, AuthenticSigningTime: st})
 				return
 			}
-			out.Results, out.Err = r.Validate(env.Chain, st)
-		default:
 			var fetcher crl.Fetcher
 			if env.Fetcher != nil {
 				fetcher = env.Fetcher
@@ -245,6 +284,7 @@ func (env *Env) Run(ctx context.Context) *Outcome {
 				out.Err = err
 				return
 			}
+			env.v = v
 			out.Results, out.Err = v.ValidateContext(ctx, revocation.ValidateContextOptions{CertChain: env.Chain, AuthenticSigningTime: st})
 		}
 	})
